@@ -19,6 +19,7 @@ import (
 	"time"
 
 	"github.com/caddyserver/caddy/v2"
+	"github.com/caddyserver/caddy/v2/caddyconfig/caddyfile"
 	"github.com/caddyserver/caddy/v2/modules/caddyhttp"
 	"github.com/caddyserver/caddy/v2/modules/caddyhttp/reverseproxy"
 
@@ -32,6 +33,7 @@ import (
 type ProbeSource struct {
 	Dials []string `json:"dials,omitempty"`
 	Max   []int    `json:"max,omitempty"`
+	Fail  bool     `json:"fail,omitempty"`
 }
 
 func (ProbeSource) CaddyModule() caddy.ModuleInfo {
@@ -42,6 +44,9 @@ func (ProbeSource) CaddyModule() caddy.ModuleInfo {
 }
 
 func (s ProbeSource) GetUpstreams(*http.Request) ([]*reverseproxy.Upstream, error) {
+	if s.Fail {
+		return nil, fmt.Errorf("probe source: lookup failed")
+	}
 	ups := make([]*reverseproxy.Upstream, len(s.Dials))
 	for i, d := range s.Dials {
 		ups[i] = &reverseproxy.Upstream{Dial: d}
@@ -90,7 +95,9 @@ type proxyCase struct {
 	tripped atomic.Bool
 	entered chan string
 	release []chan struct{}
-	bad     map[string]int    // dial address -> 0 answers, 1 dial error, 2 other error
+	parked  []atomic.Bool     // per hold: the request has been parked (it is parked once only)
+	failRel []atomic.Bool     // per hold: the round trip ends with an error when it is released
+	bad     map[string]int    // dial address -> 0 answers, 1 dial error, 2 other error, 3 answers with a status listed in unhealthy_status
 	attempt func(addr string) // called for every round trip, on the goroutine of the request
 }
 
@@ -107,6 +114,7 @@ func (t ProbeTransport) RoundTrip(req *http.Request) (*http.Response, error) {
 	if !ok {
 		return nil, fmt.Errorf("no dial info")
 	}
+	status := http.StatusOK
 	if v, ok := proxyCases.Load(t.Case); ok {
 		pc := v.(*proxyCase)
 		pc.attempt(di.Address)
@@ -118,12 +126,20 @@ func (t ProbeTransport) RoundTrip(req *http.Request) (*http.Response, error) {
 		}
 		if hs := req.Header.Get("X-C08-Hold"); hs != "" {
 			k, _ := strconv.Atoi(hs)
-			pc.entered <- di.Address
-			<-pc.release[k]
+			if pc.parked[k].CompareAndSwap(false, true) {
+				pc.entered <- di.Address
+				<-pc.release[k]
+				if pc.failRel[k].Load() {
+					return nil, fmt.Errorf("read from %s: connection reset", di.Address)
+				}
+			}
+		}
+		if pc.bad[di.Address] == 3 {
+			status = strikeStatus
 		}
 	}
 	return &http.Response{
-		StatusCode: http.StatusOK, Proto: "HTTP/1.1", ProtoMajor: 1, ProtoMinor: 1,
+		StatusCode: status, Proto: "HTTP/1.1", ProtoMajor: 1, ProtoMinor: 1,
 		Header:        http.Header{"Content-Type": []string{"text/plain"}},
 		Body:          io.NopCloser(strings.NewReader(di.Address)),
 		ContentLength: int64(len(di.Address)), Request: req,
@@ -135,6 +151,7 @@ func proxyInit() error {
 		caddy.RegisterModule(ProbeSource{})
 		caddy.RegisterModule(ProbeTransport{})
 		caddy.RegisterModule(ProbeBreaker{})
+		caddy.RegisterModule(ProbePolicy{})
 		cfg := &caddy.Config{
 			Admin: &caddy.AdminConfig{Disabled: true},
 			Logging: &caddy.Logging{Logs: map[string]*caddy.CustomLog{
@@ -148,8 +165,11 @@ func proxyInit() error {
 
 // ---------------------------------------------------------------- parsing (mirrors Driver.lean)
 
+// strikeStatus is what a backend of kind `s` answers; the handler lists it in unhealthy_status
+const strikeStatus = 418
+
 type pev struct {
-	kind byte // h q f
+	kind byte // h q f x T U
 	get  bool
 	k    int
 }
@@ -171,6 +191,7 @@ type proxyCaseT struct {
 	ups     []pup
 	evs     []pev
 	rnd     randSpec
+	viaCf   bool // the configuration is delivered as a Caddyfile
 }
 
 func (c proxyCaseT) limit(i int) int {
@@ -202,6 +223,10 @@ func (c proxyCaseT) maxFails() int {
 
 func parseProxy(f []string) (proxyCaseT, bool) {
 	var c proxyCaseT
+	if len(f) == 8 && f[7] == "c" {
+		c.viaCf = true
+		f = f[:7]
+	}
 	if len(f) != 7 {
 		return c, false
 	}
@@ -257,7 +282,7 @@ func parseProxy(f []string) (proxyCaseT, bool) {
 			}
 			id, ok1 := num(small, p[0])
 			mx, ok2 := num(1000, p[1])
-			bad, ok3 := map[string]int{"o": 0, "d": 1, "e": 2}[p[2]]
+			bad, ok3 := map[string]int{"o": 0, "d": 1, "e": 2, "s": 3}[p[2]]
 			if !ok1 || !ok2 || !ok3 || seen[id] {
 				return c, false
 			}
@@ -278,12 +303,12 @@ func parseProxy(f []string) (proxyCaseT, bool) {
 			c.evs = append(c.evs, pev{kind: 'q', get: e == "q"})
 		case e == "T" || e == "U":
 			c.evs = append(c.evs, pev{kind: e[0]})
-		case strings.HasPrefix(e, "f"):
+		case strings.HasPrefix(e, "f") || strings.HasPrefix(e, "x"):
 			k, ok := num(64, e[1:])
 			if !ok || int(k) >= holds {
 				return c, false
 			}
-			c.evs = append(c.evs, pev{kind: 'f', k: int(k)})
+			c.evs = append(c.evs, pev{kind: e[0], k: int(k)})
 		default:
 			return c, false
 		}
@@ -321,6 +346,8 @@ func runProxy(f []string) core.Outcome {
 	for i := 0; i < nholds; i++ {
 		pc.release = append(pc.release, make(chan struct{}))
 	}
+	pc.parked = make([]atomic.Bool, nholds)
+	pc.failRel = make([]atomic.Bool, nholds)
 	n := len(c.ups)
 	dials := make([]string, n)
 	maxes := make([]int, n)
@@ -379,9 +406,89 @@ func runProxy(f []string) core.Outcome {
 		if c.mf > 0 {
 			p["max_fails"] = c.mf
 		}
+		for _, u := range c.ups {
+			if u.bad == 3 {
+				// the exact code, or its class
+				p["unhealthy_status"] = []int{[]int{strikeStatus, strikeStatus / 100}[u.id%2]}
+				break
+			}
+		}
 		hj["health_checks"] = map[string]any{"passive": p}
 	}
 	raw, _ := json.Marshal(hj)
+	// delivery as a Caddyfile (trailing `c` on the line), if the configuration can be said there
+	// (static upstreams have no max_requests of their own in a Caddyfile): the real
+	// Handler.UnmarshalCaddyfile with lb_policy, lb_retries, lb_retry_match, the passive health
+	// options, unhealthy_status, dynamic; transport and circuit breaker are added to its JSON
+	viaCf := c.viaCf
+	text := "reverse_proxy"
+	if c.dynamic {
+		text += " {\n\tdynamic c08probe ok"
+		for i, d := range dials {
+			text += fmt.Sprintf(" %s|%d", d, maxes[i])
+		}
+		text += "\n"
+	} else {
+		for i, d := range dials {
+			text += " " + d
+			viaCf = viaCf && maxes[i] == 0
+		}
+		text += " {\n"
+	}
+	if !c.deflt {
+		text += "\tlb_policy " + moduleName[c.leaf.kind]
+		if c.leaf.kind == "rc" {
+			text += " " + strconv.Itoa(c.leaf.choose)
+		}
+		text += "\n"
+	}
+	if c.retries > 0 {
+		text += fmt.Sprintf("\tlb_retries %d\n", c.retries)
+	}
+	switch c.rm {
+	case 1:
+		text += "\tlb_retry_match {\n\t\tmethod POST\n\t}\n"
+	case 2:
+		text += "\tlb_retry_match {\n\t\tmethod GET\n\t}\n"
+	case 3:
+		text += "\tlb_retry_match {\n\t\tmethod GET POST\n\t}\n"
+	}
+	if c.passive() {
+		if c.m > 0 {
+			text += fmt.Sprintf("\tunhealthy_request_count %d\n", c.m)
+		}
+		if c.fd {
+			text += "\tfail_duration 1h\n"
+		}
+		if c.mf > 0 {
+			text += fmt.Sprintf("\tmax_fails %d\n", c.mf)
+		}
+		for _, u := range c.ups {
+			if u.bad == 3 {
+				text += "\tunhealthy_status " + []string{strconv.Itoa(strikeStatus), strconv.Itoa(strikeStatus/100) + "xx"}[u.id%2] + "\n"
+				break
+			}
+		}
+	}
+	text += "}\n"
+	if viaCf {
+		toks, err := caddyfile.Tokenize([]byte(text), "Caddyfile")
+		if err != nil {
+			return core.Outcome{Impl: "err:tokenize", Tags: []string{"err:tokenize"}}
+		}
+		hc := new(reverseproxy.Handler)
+		if err := hc.UnmarshalCaddyfile(caddyfile.NewDispenser(toks)); err != nil {
+			return core.Outcome{Impl: "err:caddyfile " + strings.ReplaceAll(err.Error(), " ", "_"), Tags: []string{"err:caddyfile"}}
+		}
+		b, _ := json.Marshal(hc)
+		var mm map[string]any
+		_ = json.Unmarshal(b, &mm)
+		mm["transport"] = hj["transport"]
+		if c.cb {
+			mm["circuit_breaker"] = hj["circuit_breaker"]
+		}
+		raw, _ = json.Marshal(mm)
+	}
 	ctx, cancel := caddy.NewContext(proxyBase)
 	defer cancel()
 	mod, err := ctx.LoadModuleByID("http.handlers.reverse_proxy", raw)
@@ -463,7 +570,8 @@ func runProxy(f []string) core.Outcome {
 	}
 
 	// the harness's own books
-	heldOn := []int{} // per held request: address index, -1 = not in flight
+	heldOn := []int{}      // per held request: address index, -1 = not in flight
+	itersAtHold := []int{} // per held request: the loop iterations it had made when it was parked
 	type result struct{ code, retries int }
 	doneCh := []chan result{}
 	inflight := make([]int, n)
@@ -482,6 +590,24 @@ func runProxy(f []string) core.Outcome {
 		mode = "dynamic"
 	}
 	full := func(i int) bool { return c.limit(i) > 0 && inflight[i] >= c.limit(i) }
+	// the harness's books of strikes: every failed round trip and every answer with a status listed
+	// in unhealthy_status is one (fail_duration is an hour: none expires inside a case)
+	strikes := make([]int, n)
+	book := func(att []int, ok bool) {
+		if !c.fd {
+			return
+		}
+		for k, a := range att {
+			if !(ok && k == len(att)-1) {
+				strikes[a]++
+			}
+		}
+	}
+	bookAnswer := func(i int) {
+		if c.fd && c.ups[i].bad == 3 {
+			strikes[i]++
+		}
+	}
 	// property oracle for one arriving request, judged against the requests really in flight
 	// att = the upstreams tried in order, ok = the last one answered, iterations = loop iterations
 	judge := func(t int, e pev, att []int, ok bool, code, iterations int) {
@@ -599,9 +725,13 @@ func runProxy(f []string) core.Outcome {
 			mu.Unlock()
 			code, retries, _ := serve(-1, e.get)
 			att := append([]int{}, attempts...)
-			ok := code == 200
+			ok := code == 200 || code == strikeStatus
+			book(att, ok)
+			if ok && len(att) > 0 {
+				bookAnswer(att[len(att)-1])
+			}
 			outs = append(outs, render(att, ok, code, retries+1))
-			if code == 200 || code == 502 || code == 503 {
+			if ok || code == 502 || code == 503 {
 				judge(t, e, att, ok, code, retries+1)
 			}
 		case 'h':
@@ -628,12 +758,16 @@ func runProxy(f []string) core.Outcome {
 				mu.Unlock()
 				i := dialIdx[addr]
 				judge(t, e, att, true, 200, len(att))
+				book(att, true)
 				heldOn = append(heldOn, i)
+				itersAtHold = append(itersAtHold, len(att))
 				inflight[i]++
 				outs = append(outs, render(att, true, 200, len(att)))
 			case r := <-done:
 				att := append([]int{}, attempts...)
+				book(att, false)
 				heldOn = append(heldOn, -1)
+				itersAtHold = append(itersAtHold, 0)
 				outs = append(outs, render(att, false, r.code, r.retries+1))
 				if r.code == 502 || r.code == 503 {
 					judge(t, e, att, false, r.code, r.retries+1)
@@ -641,6 +775,7 @@ func runProxy(f []string) core.Outcome {
 			case <-time.After(60 * time.Second):
 				infra = "held request neither reached the backend nor returned"
 				heldOn = append(heldOn, -1)
+				itersAtHold = append(itersAtHold, 0)
 				outs = append(outs, "?")
 			}
 		case 'T', 'U':
@@ -658,8 +793,47 @@ func runProxy(f []string) core.Outcome {
 				infra = "released request did not complete"
 			}
 			inflight[heldOn[e.k]]--
+			bookAnswer(heldOn[e.k])
 			heldOn[e.k] = -1
 			outs = append(outs, "ok")
+		case 'x':
+			// the round trip of a held request ends with an error: the rest of its proxy loop
+			if heldOn[e.k] < 0 {
+				outs = append(outs, "-")
+				continue
+			}
+			i := heldOn[e.k]
+			mu.Lock()
+			attempts = nil
+			rewind()
+			mu.Unlock()
+			pc.failRel[e.k].Store(true)
+			close(pc.release[e.k])
+			var r result
+			select {
+			case r = <-doneCh[e.k]:
+			case <-time.After(60 * time.Second):
+				infra = "released request did not complete"
+			}
+			inflight[i]--
+			heldOn[e.k] = -1
+			mu.Lock()
+			att := append([]int{i}, attempts...)
+			mu.Unlock()
+			ok := r.code == 200 || r.code == strikeStatus
+			book(att, ok)
+			if ok {
+				bookAnswer(att[len(att)-1])
+			}
+			for _, sel := range att[1:] {
+				if full(sel) {
+					add("proxy-selected-full-upstream", fmt.Sprintf("%s upstreams, event %d: after its round trip failed the held request was sent to upstream %d which has %d requests in flight, limit %d (in flight %v)", mode, t, sel, inflight[sel], c.limit(sel), inflight))
+				}
+			}
+			if att[len(att)-1] == i && len(att) > 1 && !c.dynamic && c.fd && c.maxFails() == 1 {
+				add("proxy-retried-unhealthy-upstream", fmt.Sprintf("static upstreams, event %d: the round trip of a held request to upstream %d failed (fail_duration set, max_fails 1) and the same upstream was tried again (tried %v)", t, i, att))
+			}
+			outs = append(outs, render(att, ok, r.code, r.retries+1-(itersAtHold[e.k]-1)))
 		}
 		// oracle: nothing is proxied while the breaker is open
 		if (e.kind == 'q' || e.kind == 'h') && c.cb && pc.tripped.Load() {
@@ -679,6 +853,9 @@ func runProxy(f []string) core.Outcome {
 		}
 		ns = append(ns, strconv.FormatInt(nr, 10))
 		fls = append(fls, strconv.FormatInt(fl, 10))
+		if !c.dynamic && infra == "" && int(fl) != strikes[i] {
+			add("proxy-failure-not-counted", fmt.Sprintf("static upstreams, fail_duration 1h: upstream %d has had %d strikes (failed round trips, answers with a status listed in unhealthy_status) but the shared host state that Healthy() reads says %d (strikes %v)", i, strikes[i], fl, strikes))
+		}
 		if int(nr) != inflight[i] {
 			add("proxy-inflight-not-visible", fmt.Sprintf("%s upstreams: %d requests are in flight on upstream %d but the shared host state that Available()/NumRequests() read says %d (in flight %v)", mode, inflight[i], i, nr, inflight))
 		}
@@ -718,6 +895,9 @@ func runProxy(f []string) core.Outcome {
 	if c.deflt {
 		o.Tags = append(o.Tags, "prx:default-policy")
 	}
+	if viaCf {
+		o.Tags = append(o.Tags, "prx:via-caddyfile")
+	}
 	if c.m > 0 {
 		o.Tags = append(o.Tags, "prx:limit")
 	}
@@ -735,6 +915,9 @@ func runProxy(f []string) core.Outcome {
 		}
 	}
 	for _, u := range c.ups {
+		if u.bad == 3 && c.passive() {
+			tag("prx:unhealthy_status")
+		}
 		if u.max > 0 {
 			tag("prx:own-max_requests")
 			if c.m > 0 && u.max != c.m {
@@ -766,8 +949,11 @@ func runProxy(f []string) core.Outcome {
 			if cur > maxOverlap {
 				maxOverlap = cur
 			}
-		} else if e.kind == 'f' {
+		} else if e.kind == 'f' || e.kind == 'x' {
 			cur--
+			if e.kind == 'x' {
+				tag("prx:held-request-fails")
+			}
 		}
 	}
 	if maxOverlap >= 2 {
@@ -824,7 +1010,7 @@ func genProxy(rng *core.Rand) string {
 		}
 		bad := "o"
 		if rng.Intn(100) < badBias {
-			bad = []string{"d", "d", "e"}[rng.Intn(3)]
+			bad = []string{"d", "d", "e", "s"}[rng.Intn(4)]
 		}
 		ups = append(ups, fmt.Sprintf("%d:%d:%s", 1+off+i*3, mx, bad))
 	}
@@ -861,7 +1047,11 @@ func genProxy(rng *core.Rand) string {
 			} else {
 				open = append(open[:j], open[j+1:]...)
 			}
-			evs = append(evs, "f"+strconv.Itoa(k))
+			if rng.Chance(1, 3) {
+				evs = append(evs, "x"+strconv.Itoa(k))
+			} else {
+				evs = append(evs, "f"+strconv.Itoa(k))
+			}
 		}
 	}
 	rs := "-"
@@ -900,5 +1090,9 @@ func genProxy(rng *core.Rand) string {
 	} else if rng.Chance(1, 10) {
 		cfg += ":0"
 	}
-	return fmt.Sprintf("prx %s %s %s %s %s %s", mode, pol, cfg, uf, strings.Join(evs, ","), rs)
+	via := ""
+	if rng.Chance(1, 3) {
+		via = " c"
+	}
+	return fmt.Sprintf("prx %s %s %s %s %s %s%s", mode, pol, cfg, uf, strings.Join(evs, ","), rs, via)
 }
